@@ -452,39 +452,63 @@ def flattenComma : Nat → JV → List JV
   | fuel + 1, q =>
     if q.get "op" == .str "," then flattenComma fuel (q.get "left") ++ flattenComma fuel (q.get "right") else [q]
 
+/-- key of one `key_vals` entry of an object literal: `"k": …` (key_string) or `k: …` (key) -/
+def litKey (kv : JV) : Option String :=
+  match getIn kv ["key_string", "str"], kv.get "key" with
+  | .str s, _ => some s
+  | .null, .str s => some s
+  | .null, .null => some ""
+  | _, _ => none
+
+def litStep (ev : JV → Option JV) (acc kv : JV) : Option JV :=
+  match ev (kv.get "val"), litKey kv with
+  | some v, some k => some (acc.set k v)
+  | _, _ => none
+
+def litType (t : JV) : String :=
+  match t.get "type" with
+  | .str s => s
+  | _ => ""
+
 def evalLit : Nat → JV → Option JV
   | 0, _ => none
   | fuel + 1, q =>
     let t := q.get "term"
-    match t.get "type" with
-    | .str "TermTypeNull" => some .null
-    | .str "TermTypeTrue" => some (.bool true)
-    | .str "TermTypeFalse" => some (.bool false)
-    | .str "TermTypeString" =>
+    let ty := litType t
+    if ty == "TermTypeNull" then some .null
+    else if ty == "TermTypeTrue" then some (.bool true)
+    else if ty == "TermTypeFalse" then some (.bool false)
+    else if ty == "TermTypeString" then
       match getIn t ["str", "str"] with
       | .str s => some (.str s)
       | .null => some (.str "")
       | _ => none
-    | .str "TermTypeArray" =>
+    else if ty == "TermTypeArray" then
       let inner := getIn t ["array", "query"]
       if inner.truthy then
-        (flattenComma fuel inner).mapM (evalLit fuel) |>.map .arr
+        ((flattenComma fuel inner).mapM (evalLit fuel)).map .arr
       else some (.arr [])
-    | .str "TermTypeObject" =>
+    else if ty == "TermTypeObject" then
       match getIn t ["object", "key_vals"] with
-      | .arr kvs =>
-        kvs.foldlM (fun acc kv => do
-          let v ← evalLit fuel (kv.get "val")
-          let k ← match getIn kv ["key_string", "str"], kv.get "key" with
-            | .str s, _ => some s
-            | .null, .str s => some s
-            | .null, .null => some ""
-            | _, _ => none
-          pure (acc.set k v)) (.obj [])
+      | .arr kvs => kvs.foldlM (litStep (evalLit fuel)) (.obj [])
       | .null => some (.obj [])
       | _ => none
-    | _ => none
+    else none
 
+/- canonical JSON values without numbers: what `_query_fromstring` yields (object keys strictly increasing) -/
+mutual
+  def Canon : JV → Prop
+    | .num _ => False
+    | .arr xs => CanonL xs
+    | .obj kvs => CanonKV kvs ∧ kvs.Pairwise (fun a b => a.1 < b.1)
+    | _ => True
+  def CanonL : List JV → Prop
+    | [] => True
+    | x :: rest => Canon x ∧ CanonL rest
+  def CanonKV : List (String × JV) → Prop
+    | [] => True
+    | (_, v) :: rest => Canon v ∧ CanonKV rest
+end
 
 /-! ### the option records fq passes (init.jq:150-160 `_cli_eval`, 241-277 `_main`; repl.jq:222-239 `_repl_eval`)
 
